@@ -91,6 +91,14 @@ def run(ctx):
                 for tol in (1e-9, 1e-11):
                     cases.append({"fn": "completion", "coefs": Q.cplx_hex(pre, pim), "complex": True, "coef_type": "P", "kind": "T_n",
                                   "mode": "achievable", "tol": hexf(tol), "timeout": 120})
+        # directed: complex corners that are real up to 1e-7 (phases within 3e-7 of multiples of pi/2 ... 0): the tiny imaginary part belongs to P
+        for d in ((1, 2, 3, 5) if quick else range(1, 9)):
+            for rep in range(2 if quick else 6):
+                base = [rng.choice([0.0, 0.0, math.pi / 2, -math.pi / 2]) if 0 < j < d else 0.0 for j in range(d + 1)]
+                ph = [b + rng.uniform(-3e-7, 3e-7) for b in base]
+                pre, pim = Q.corner_of_phases(ph)
+                cases.append({"fn": "completion", "coefs": Q.cplx_hex(pre, pim), "complex": True, "coef_type": "P", "kind": "nearly-real",
+                              "mode": "achievable", "timeout": 120})
         # directed: short inputs scaled below 1 (non-corners of degree 1 and 2), which only the identity coefficient of F~F+G~G exposes
         for d in (1, 2):
             for rep in range(3 if quick else 12):
